@@ -192,6 +192,122 @@ let run_bg args = match args with
       emit (L (A "out" :: List.map (fun r -> L [sx_chr r.b_chr; an r.b_st; an r.b_en; az r.b_val]) (ok (merge_sorted_bedgraph l)))))
   | _ -> raise (Bad "bg args")
 
+(* ---------- text: Display / FromStr / Reader / Writer ---------- *)
+let opt_of f x = match x with A "none" -> None | _ -> Some (f x)
+let strand_of x = match atom x with "+" -> Fwd | "-" -> Rev | _ -> raise (Bad "strand")
+let bed_of l = match l with
+  | c :: s :: e :: nm :: sc :: sd :: rest ->
+    ({ bd_chr = chr c; bd_st = num s; bd_en = num e; bd_name = opt_of chr nm; bd_score = opt_of num sc; bd_strand = opt_of strand_of sd }, rest)
+  | _ -> raise (Bad "bed fields")
+let sx_opt f = function Some x -> f x | None -> A "none"
+let sx_strand = function Fwd -> A "+" | Rev -> A "-"
+let sx_bedfields (b : bed) = [sx_chr b.bd_chr; an b.bd_st; an b.bd_en; sx_opt sx_chr b.bd_name; sx_opt an b.bd_score; sx_opt sx_strand b.bd_strand]
+(* float tables shipped with the case: (ftab (bits hex)...) and (ptab (hex bits|none)...) *)
+let mk_show_f (ft : sexp) : n -> n list =
+  let tbl = List.map (fun e -> match lst e with [b; h] -> (atom b, bytes_of_hex (atom h)) | _ -> raise (Bad "ftab")) (tagged "ftab" ft) in
+  fun bits -> (try List.assoc (string_of_n bits) tbl with Not_found -> raise (Bad ("float not in ftab: " ^ string_of_n bits)))
+let mk_parse_f (pt : sexp) : n list -> n option =
+  let tbl = List.map (fun e -> match lst e with [h; b] -> (atom h, (match b with A "none" -> None | _ -> Some (num b))) | _ -> raise (Bad "ptab")) (tagged "ptab" pt) in
+  fun s -> (try List.assoc (hex_of_bytes s) tbl with Not_found -> raise (Bad ("token not in ptab: " ^ hex_of_bytes s)))
+let sx_perr = function
+  | MissingChrom -> "missing-chrom" | MissingStart -> "missing-start" | InvalidStart -> "invalid-start"
+  | MissingEnd -> "missing-end" | InvalidEnd -> "invalid-end" | MissingName -> "missing-name"
+  | MissingScore -> "missing-score" | InvalidScore -> "invalid-score" | MissingStrand -> "missing-strand"
+  | InvalidStrand -> "invalid-strand" | MissingField -> "ext" | InvalidField -> "ext"
+let sx_pres f = function POk a -> L [A "ok"; f a] | PErr e -> L [A "err"; A (sx_perr e)] | PPanic -> A "panic"
+let sx_gr ((c, s), e) = L [sx_chr c; an s; an e]
+let sx_bed b = L (sx_bedfields b)
+let sx_np (r : npeak) = L (sx_bedfields r.np_bed @ [an r.np_signal; sx_opt an r.np_p; sx_opt an r.np_q; an r.np_peak])
+let sx_bp (r : bpeak) = L (sx_bedfields r.bp_bed @ [an r.bp_signal; sx_opt an r.bp_p; sx_opt an r.bp_q])
+let sx_bg (r : bgraph) = L [sx_chr r.bg_chr; an r.bg_st; an r.bg_en; (match r.bg_val with VInt z -> az z | VFloat b -> an b)]
+(* a typed record: shown text and a parser for the same type, printing results as sexp *)
+let bedn t = n_of_int (int_of_string (String.sub t 3 1))
+let show_typed (t : string) (sf : n -> n list) (r : sexp) : n list =
+  match t with
+  | "gr" -> (match lst r with [c; s; e] -> show_grange (chr c) (num s) (num e) | _ -> raise (Bad "gr"))
+  | "bed3" | "bed4" | "bed5" | "bed6" -> show_bed (bedn t) (fst (bed_of (lst r)))
+  | "np" -> let (b, rest) = bed_of (lst r) in
+    (match rest with [sg; p; q; pk] -> show_npeak sf { np_bed = b; np_signal = num sg; np_p = opt_of num p; np_q = opt_of num q; np_peak = num pk } | _ -> raise (Bad "np"))
+  | "bp" -> let (b, rest) = bed_of (lst r) in
+    (match rest with [sg; p; q] -> show_bpeak sf { bp_bed = b; bp_signal = num sg; bp_p = opt_of num p; bp_q = opt_of num q } | _ -> raise (Bad "bp"))
+  | "bgi" -> (match lst r with [c; s; e; v] -> show_bgraph sf { bg_chr = chr c; bg_st = num s; bg_en = num e; bg_val = VInt (znum v) } | _ -> raise (Bad "bgi"))
+  | "bgf" -> (match lst r with [c; s; e; v] -> show_bgraph sf { bg_chr = chr c; bg_st = num s; bg_en = num e; bg_val = VFloat (num v) } | _ -> raise (Bad "bgf"))
+  | _ -> raise (Bad "type")
+let parse_typed (t : string) (pf : n list -> n option) (s : n list) : sexp =
+  match t with
+  | "gr" -> sx_pres sx_gr (parse_grange s)
+  | "bed3" | "bed4" | "bed5" | "bed6" -> sx_pres sx_bed (parse_bed (bedn t) s)
+  | "np" -> sx_pres sx_np (parse_npeak pf s)
+  | "bp" -> sx_pres sx_bp (parse_bpeak pf s)
+  | "bgi" -> sx_pres sx_bg (parse_bgraph false pf s)
+  | "bgf" -> sx_pres sx_bg (parse_bgraph true pf s)
+  | _ -> raise (Bad "type")
+let run_fmt args = match args with
+  | [t; r; ft; pt] -> with_panic (fun emit ->
+      let t = atom t in
+      let sf = mk_show_f ft and pf = mk_parse_f pt in
+      let txt = show_typed t sf r in
+      emit (L [A "txt"; A (hex_of_bytes txt)]);
+      emit (L [A "rt"; parse_typed t pf txt]);
+      if t = "gr" then begin
+        match lst r with
+        | [c; s; e] -> let p = pretty_show (chr c) (num s) (num e) in
+          emit (L [A "pretty"; A (hex_of_bytes p)]); emit (L [A "prt"; parse_typed t pf p])
+        | _ -> raise (Bad "gr")
+      end)
+  | _ -> raise (Bad "fmt args")
+let run_parse args = match args with
+  | [t; s; pt] -> with_panic (fun emit -> emit (parse_typed (atom t) (mk_parse_f pt) (bytes_of_hex (atom s))))
+  | _ -> raise (Bad "parse args")
+let run_score args = match args with
+  | [A "try"; v] -> with_panic (fun emit -> emit (match score_try_from (num v) with Some x -> L [A "ok"; an x] | None -> A "err"))
+  | [A "str"; s] -> with_panic (fun emit ->
+      emit (match p_score [bytes_of_hex (atom s)] with
+            | POk ((Some v, _)) -> L [A "ok"; an v] | POk ((None, _)) -> L [A "ok"; A "none"] | PErr _ -> A "err" | PPanic -> A "panic"))
+  | _ -> raise (Bad "score args")
+let lf = n_of_int 10 and cr = n_of_int 13
+let rec drop_last = function [] -> [] | [_] -> [] | x :: t -> x :: drop_last t
+let reterminate (lines : n list list) (terms : sexp list) : n list =
+  (* each written line ends in LF; replace it by the requested terminator *)
+  List.concat (List.map2 (fun l t -> let body = drop_last l in
+      match atom t with "lf" -> body @ [lf] | "crlf" -> body @ [cr; lf] | "none" -> body | _ -> raise (Bad "term")) lines terms)
+let reader_items_sx t pf prefix s =
+  match t with
+  | "gr" -> List.map (sx_pres sx_gr) (reader_items parse_grange prefix s)
+  | "bed3" | "bed4" | "bed5" | "bed6" -> List.map (sx_pres sx_bed) (reader_items (parse_bed (bedn t)) prefix s)
+  | "np" -> List.map (sx_pres sx_np) (reader_items (parse_npeak pf) prefix s)
+  | "bp" -> List.map (sx_pres sx_bp) (reader_items (parse_bpeak pf) prefix s)
+  | "bgi" -> List.map (sx_pres sx_bg) (reader_items (parse_bgraph false pf) prefix s)
+  | "bgf" -> List.map (sx_pres sx_bg) (reader_items (parse_bgraph true pf) prefix s)
+  | _ -> raise (Bad "type")
+let run_read args = match args with
+  | [t; prefix; stream; _frag; pt] -> with_panic (fun emit ->
+      let t = atom t in
+      let pf = mk_parse_f pt in
+      let prefix = (match prefix with A "none" -> None | p -> Some (bytes_of_hex (atom p))) in
+      let s = bytes_of_hex (atom stream) in
+      emit (L (A "items" :: reader_items_sx t pf prefix s)))
+  | _ -> raise (Bad "read args")
+let run_wr args = match args with
+  | [t; prefix; recs; terms; _frag; ft; pt] -> with_panic (fun emit ->
+      let t = atom t in
+      let sf = mk_show_f ft and pf = mk_parse_f pt in
+      let prefix = (match prefix with A "none" -> None | p -> Some (bytes_of_hex (atom p))) in
+      let lines = List.map (fun r -> write_record (show_typed t sf r)) (tagged "recs" recs) in
+      emit (L [A "txt"; A (hex_of_bytes (List.concat lines))]);
+      let s = reterminate lines (tagged "terms" terms) in
+      emit (L (A "items" :: reader_items_sx t pf prefix s)))
+  | _ -> raise (Bad "wr args")
+let run_skiprun args = match args with
+  | [nn; prefix; tail] -> with_panic (fun emit ->
+      let p = bytes_of_hex (atom prefix) in
+      let line = p @ [n_of_int 120; lf] in
+      let k = int_ nn in
+      let rec build i acc = if i = 0 then acc else build (i - 1) (List.rev_append (List.rev line) acc) in
+      let s = build k (bytes_of_hex (atom tail)) in
+      emit (L (A "items" :: reader_items_sx "bed3" (fun _ -> None) (Some p) s)))
+  | _ -> raise (Bad "skiprun args")
+
 let run_case (x : sexp) : sexp =
   match x with
   | L (A "lap" :: args) -> run_lap args
@@ -204,6 +320,12 @@ let run_case (x : sexp) : sexp =
   | L (A "split" :: args) -> run_split args
   | L (A "merge" :: args) -> run_merge args
   | L (A "bg" :: args) -> run_bg args
+  | L (A "fmt" :: args) -> run_fmt args
+  | L (A "parse" :: args) -> run_parse args
+  | L (A "score" :: args) -> run_score args
+  | L (A "read" :: args) -> run_read args
+  | L (A "wr" :: args) -> run_wr args
+  | L (A "skiprun" :: args) -> run_skiprun args
   | _ -> raise (Bad "unknown case kind")
 
 let () =
